@@ -185,6 +185,8 @@ def _is_expected(errstr, expected):
 def _collect(R, cx, replay_cb=None):
     nontriv = 0
     for ob in cx.obligations:
+        if ob.get('cached'):
+            continue
         R['obligations'] += 1
         res = ob['res']
         if ob.get('ground'):
